@@ -663,13 +663,31 @@ pub fn stress_rounds_with(rounds: u64, seed: u64, o: &mut Outcome, maxk: u32, li
         ROUND.with(|r| r.set(j));
         let books = make_books(k, mode, mode == "shared-reference", nsavers);
         let barrier = Arc::new(std::sync::Barrier::new(nsavers));
+        // a third of the rounds save to paths in one directory (destinations that differ only in their extension), the rest to memory
+        let dir = if rng.chance(1, 3) {
+            let d = std::env::temp_dir().join(format!("uvh-c16-{}-{}", std::process::id(), j));
+            let _ = std::fs::create_dir_all(&d);
+            Some(d)
+        } else {
+            None
+        };
         let hs: Vec<_> = books
             .iter()
-            .map(|b| {
+            .enumerate()
+            .map(|(si, b)| {
                 let b = b.clone();
                 let bar = barrier.clone();
+                let path = dir.as_ref().map(|d| d.join(format!("book.{}", ["xlsx", "xlsm", "xltx"][si % 3])));
                 std::thread::spawn(move || {
                     bar.wait();
+                    if let Some(p) = path {
+                        let r = guard(|| if light { writer::xlsx::write_light(&*b, &p) } else { writer::xlsx::write(&*b, &p) });
+                        return match r {
+                            Ok(Ok(())) => std::fs::read(&p).map_err(|e| format!("saved file not readable: {}", e)),
+                            Ok(Err(e)) => Err(format!("save error: {:?}", e)),
+                            Err(e) => Err(format!("save panic: {}", e)),
+                        };
+                    }
                     let mut cur = std::io::Cursor::new(Vec::new());
                     let r = guard(|| if light { writer::xlsx::write_writer_light(&*b, &mut cur) } else { writer::xlsx::write_writer(&*b, &mut cur) });
                     match r {
@@ -684,7 +702,10 @@ pub fn stress_rounds_with(rounds: u64, seed: u64, o: &mut Outcome, maxk: u32, li
         let r = RunOut { grants: vec![], choices: vec![], options: vec![], outs, log: vec![], stuck: None };
         // the reference saves come after the concurrent ones: they must not initialise any process-wide state beforehand
         let solos = solo_parts(&books, light);
-        check_run(o, &books, &r, &solos, &format!("stress#{} k={} {} savers={}", j, k, mode, nsavers));
+        check_run(o, &books, &r, &solos, &format!("stress#{} k={} {} savers={}{}", j, k, mode, nsavers, if dir.is_some() { " saved-to-paths" } else { "" }));
+        if let Some(d) = dir {
+            let _ = std::fs::remove_dir_all(d);
+        }
     }
     rounds
 }
